@@ -135,8 +135,8 @@ kind_to_target = dict(
     bitwise_xor="({0}) ^ ({1})",
     bitwise_left_shift="({0}) << ({1})",
     bitwise_right_shift="({0}) >> ({1})",
-    maximum="max({0}, {1})",
-    minimum="min({0}, {1})",
+    maximum="numpy.maximum({0}, {1})",
+    minimum="numpy.minimum({0}, {1})",
     acos="numpy.arccos({0})",
     acosh="numpy.arccosh({0})",
     asin="numpy.arcsin({0})",
